@@ -723,6 +723,15 @@ func TestVerifC16Manager(t *testing.T) {
 		}
 		scs = append(scs, &plScenario{Name: "place:6to3-offers", SrcN: 6, TgtN: 3, Colls: colls, Drivers: drv, WatchMapping: true, HeavyBound: 1})
 	}
+	// a collection whose second shard cannot be started (its connectivity check is refused) after the first one has been
+	// assigned, then another collection that offers the same source channel with a different downstream channel: the
+	// assignment made for the first shard stays
+	for _, cnt := range [][2]int{{2, 2}, {4, 2}} {
+		c1 := mkColl(101, "c1", []string{"src-dml_0", "src-dml_1"}, []string{"tgt-dml_0", "tgt-dml_1"})
+		c2 := mkColl(102, "c2", []string{"src-dml_0"}, []string{"tgt-dml_1"})
+		scs = append(scs, &plScenario{Name: fmt.Sprintf("place:%dto%d-partly-failed-start", cnt[0], cnt[1]), SrcN: cnt[0], TgtN: cnt[1], Colls: []*plColl{c1, c2},
+			Drivers: []plDriver{{Kind: "start", Coll: 0}, {Kind: "start", Coll: 1}}, WatchMapping: true, ConnFailAt: 2, HeavyBound: 1})
+	}
 	// equal counts (3:3): a collection whose downstream channel has no owner yet has a pack forwarded (forwardMsg offers
 	// the channel on every retry) before / while two new source channels wait for a channel: still one-to-one
 	{
@@ -736,7 +745,7 @@ func TestVerifC16Manager(t *testing.T) {
 		colls[1].Shards[0].Script = []plPack{pkIns(1000)}
 		scs = append(scs, &plScenario{Name: "place:3to3-unowned-forward", SrcN: 3, TgtN: 3, Colls: colls, Drivers: drv, WatchMapping: true, HeavyBound: 1, MsgPosPChannel: true})
 	}
-	res.Rule = "sched engine over the real channel manager (startReadChannel / waitChannel / forwardChannel around util.ChannelMapping): placements {renamed, sorted pairing, crosswise (two collections share a source channel but live on different downstream channels), same names, 2:1, 1:2, 3:2, 2:3 channel counts, 6:3 with a downstream channel offered twice while two source channels wait, 3:3 with a pack forwarded to a downstream channel that has no owner yet} with the collections started concurrently; all start orders and schedules within the deviation bound; the connectivity check of a new handler is a scheduling point whenever the manager's channel lock is not held there; the assignment table is read through CheckKeyExist for every channel pair at every scheduling point: one image per key at any time, an image never changes or disappears, no channel serves more than ceil(larger/smaller), every subscribed source channel is assigned; plus the C02 routing oracle on what is emitted"
+	res.Rule = "sched engine over the real channel manager (startReadChannel / waitChannel / forwardChannel around util.ChannelMapping): placements {renamed, sorted pairing, crosswise (two collections share a source channel but live on different downstream channels), same names, 2:1, 1:2, 3:2, 2:3 channel counts, 6:3 with a downstream channel offered twice while two source channels wait, 3:3 with a pack forwarded to a downstream channel that has no owner yet, a collection whose second shard fails its connectivity check} with the collections started concurrently; all start orders and schedules within the deviation bound; the connectivity check of a new handler is a scheduling point whenever the manager's channel lock is not held there; the assignment table is read through CheckKeyExist for every channel pair at every scheduling point: one image per key at any time, an image never changes or disappears, no channel serves more than ceil(larger/smaller), every subscribed source channel is assigned; plus the C02 routing oracle on what is emitted"
 	plExplore(t, res, "C16", bound, scs, plCheck{props: "2M"}, 150*time.Second)
 }
 
